@@ -323,6 +323,26 @@ register_b09(
     assumptions=["operand values: the oracle compares the operand *texts* the converter writes for the same expression in an assignment"],
 )
 
+import suite_ctl  # noqa: E402
+
+PROPS["C02"] = {
+    "lean": ["CocoVerif.Props.C02"],
+    "lean_extra": B09_LEAN_EXTRA + ["CocoVerif.Props.C07"],
+    "suites": [{"name": "ctl", "relevant": lambda c: True, "oracle": suite_ctl.oracle, "classify": suite_ctl.classify}],
+    "search": None,
+    "rule": "17 probes + 120 (thorough: 1200) generated programs over multi-statement lines, IF/THEN/ELSE (nested, ELSE IF chains "
+            "with and without ELSE, line-number and statement branches), FOR/NEXT (STEP, negative STEP, bare NEXT, NEXT lists, "
+            "nested across lines, initially empty ranges), GOTO forward/backward with counters, GOSUB/RETURN, ON..GOTO/GOSUB, END, "
+            "STOP; unique ascending line numbers, lexically nested loops; each with 2-4 input vectors (a first line setting the "
+            "steering variables) and the four combinations of filter_unused_linenum x initialize_vars; the source runs on the "
+            "Color BASIC reference machine and the real output on the BASIC09 reference machine and the event traces (PRINT items, "
+            "END) are compared under a step budget; distinct = distinct (program, input vector, options)",
+    "trusted": B09_TRUSTED + ["harness/ctlsem.py: reference machines for the control-flow fragment of Color BASIC (an IF owns the rest "
+                              "of its line, FOR body runs at least once, bare NEXT closes the innermost FOR) and of BASIC09 (FOR tested "
+                              "before the first pass, lexical FOR/NEXT and block pairing, BOOLEAN conditions)"],
+    "assumptions": ["bounded execution is used only to find a differing trace; termination is judged relative to a step budget"],
+}
+
 import suite_expr  # noqa: E402
 
 PROPS["C01"] = {
@@ -443,6 +463,11 @@ def replay_witness(f):
         case = {"fmt": parts[1], "kind": w.get("kind", "valid"), "req": w["request"], "data": unhex(parts[-1])}
         case.update(w.get("case", {}))
         return OI.ORACLES[w.get("oracle", f["property"])](case, impl)
+    if isinstance(w, dict) and w.get("type") == "ctl":
+        import impl_b09
+        o = {"flags": w.get("flags", "0100000"), "storage": 32, "procname": "", "sizes": []}
+        case = {"text": w["text"], "opts": o}
+        return suite_ctl.oracle(case, impl_b09.convert(w["text"], o))
     if isinstance(w, dict) and w.get("type") == "expr":
         import impl_b09
         case = {"text": w["text"], "ctx": w["ctx"], "ekind": w["ekind"], "expr": w["expr"], "opts": suite_expr.OPTS}
